@@ -17,6 +17,7 @@ type c06Case struct {
 	Lang   int      `json:"lang"`
 	Dev    plan.Dev `json:"dev"`
 	Family string   `json:"family,omitempty"`
+	PreMs  int64    `json:"pre_ms,omitempty"`
 }
 type c06Job struct {
 	Kind  string    `json:"kind"`
